@@ -13,7 +13,7 @@ use num_traits::{One, Zero};
 
 def build(tier, seed):
     shapes = [(1, 2), (1, 1), (2, 2), (2, 3), (2, 4), (3, 3), (3, 4), (3, 5)] if tier == "quick" else \
-             [(1, 1), (1, 2), (1, 3), (2, 2), (2, 3), (2, 4), (2, 5), (3, 3), (3, 4), (3, 5), (3, 6), (4, 4), (4, 5), (4, 6)]
+             [(1, 1), (1, 2), (1, 3), (2, 2), (2, 3), (2, 4), (2, 5), (3, 3), (3, 4), (3, 5), (3, 6), (4, 4), (4, 5)]
     items = []
     for r, n in shapes:
         hn = "c02_gauss_%dx%d" % (r, n)
